@@ -66,6 +66,12 @@ def limits_defaults(ctx, fu):
         b = util.find_one(ctx, suffix='urdf::URDFParameters::' + name)
         cs = [(bi, t2) for bi, t2 in b.calls() if cname(callee_name(t2)) == 'Constraints::new']
         ok = len(cs) == 1
+        if not cs and name == 'to_robot':
+            # built through the sibling `self.constraints(weight)`, which is checked in its own right
+            sib = [(bi, t2) for bi, t2 in b.calls() if (t2['callee'].get('resolved') or '').endswith('urdf::URDFParameters::constraints')]
+            if len(sib) == 1 and util.is_param(b.op_term(sib[0][1]['args'][0], (sib[0][0], None)), 1):
+                ctx.ok('R20.2', name + '/limits', b.where(sib[0][0]), 'through self.constraints(..)')
+                continue
         if ok:
             bi, t2 = cs[0]
             a = [strip(b.op_term(x, (bi, None))) for x in t2['args']]
@@ -177,6 +183,12 @@ def angle_syntax(ctx, fu):
             ctx.check(got == want, 'R20.6', 'token %s' % tok, pa.where(0), pa.path,
                       'for the limit `%s` the number handed to the float parser is %r, expected %r' % (tok, got, want), found=repr(got), expected=repr(want), detail=repr(got))
         conv = any(cname(callee_name(t2)) == 'f64::to_radians' for bi, t2 in pa.calls()) or any(cname(callee_name(t2)) == 'f64::to_radians' for c in util.closure_bodies(prog, pa.path) for bi, t2 in c.calls())
+        # .. or handed to a combinator as a function item: `.map(f64::to_radians)` on the parsed number
+        for bi, t2 in pa.calls():
+            if cname(callee_name(t2)) in ('Result::map', 'Option::map') and len(t2['args']) == 2:
+                f = strip(pa.op_term(t2['args'][1], (bi, None)))
+                if isinstance(f, tuple) and f[0] == 'const' and f[1] == 'fn' and cname(f[2]) == 'f64::to_radians' and 'parse' in show(pa.op_term(t2['args'][0], (bi, None)), maxdepth=4):
+                    conv = True
         ctx.check(conv, 'R20.6', 'degrees-to-radians', pa.where(0), pa.path, 'a ${radians(deg)} limit must be converted to radians')
 
 
@@ -241,11 +253,18 @@ def run(ctx):
     # ---- R20.3
     cm = util.find_role(ctx, 'name map builder: fn(Vec<JointData>) -> Result<HashMap<String, JointData>, ..>',
                         lambda b, sg: 'HashMap' in sg[0] and 'JointData' in sg[0] and len(sg) == 2 and 'Vec<urdf::JointData>' in sg[1].replace('std::vec::', ''), module='urdf::', called_from=[fu])
-    ins = [(bi, t2) for bi, t2 in cm.calls() if cname(callee_name(t2)) == 'HashMap::insert']
+    ins = [(bi, t2) for bi, t2 in cm.calls() if cname(callee_name(t2)) in ('HashMap::insert', 'VacantEntry::insert', 'VacantEntry::insert_entry')]
     ok_ins = False
     for bi, t2 in ins:
         gs = [(strip(g), k) for g, k, sw in cm.guard_terms(bi)]
-        ok_ins = any(isinstance(g, tuple) and g[0] == 'discr' and 'HashMap::get' in show(g, maxdepth=3) and k in (0, 'otherwise') for g, k in gs)
+        if cname(callee_name(t2)) == 'HashMap::insert':
+            ok_ins = any(isinstance(g, tuple) and g[0] == 'discr' and 'HashMap::get' in show(g, maxdepth=3) and k in (0, 'otherwise') for g, k in gs)
+        else:
+            # the entry API: the slot exists only on the Vacant edge of `map.entry(name)`, and the name is the joint's own
+            key_ok = any(isinstance(g, tuple) and g[0] == 'discr' and isinstance(strip(g[1]), tuple) and strip(g[1])[0] == 'call' and
+                         cname(strip(g[1])[1]) == 'HashMap::entry' and mir.contains(strip(g[1])[3], lambda y: y[0] == 'fld' and y[2] == 'name') for g, k in gs)
+            val = strip(cm.op_term(t2['args'][1], (bi, None)))
+            ok_ins = key_ok and util.loop_source(val) is not None
     errs = [(tt, d) for tt, d, rb2 in cm.return_values() if isinstance(strip(tt), tuple) and strip(tt)[0] == 'agg' and 'Err' in strip(tt)[1]]
     ok_err = False
     for tt, d in errs:
@@ -264,9 +283,13 @@ def run(ctx):
             a = [cm.op_term(x, (bi, None)) for x in t2['args']]
             cmp_found = '%s on %s: %s vs %s' % (n2, gen, show(a[0], maxdepth=4), show(a[1], maxdepth=4))
             a0, a1 = strip(a[0]), strip(a[1])
-            lhs_entry = isinstance(a0, tuple) and a0[0] == 'fld' and a0[2] == '0' and 'HashMap::get' in show(a0, maxdepth=4)
+            def stored(x):
+                if isinstance(x, tuple) and x[0] == 'fld' and x[2] == '0' and 'HashMap::get' in show(x, maxdepth=4):
+                    return True
+                return isinstance(x, tuple) and x[0] == 'call' and cname(x[1]) == 'OccupiedEntry::get' and 'HashMap::entry' in show(x, maxdepth=6)
+            lhs_entry = stored(a0)
             rhs_joint = util.loop_source(a1) is not None
-            swapped = isinstance(a1, tuple) and a1[0] == 'fld' and a1[2] == '0' and 'HashMap::get' in show(a1, maxdepth=4) and util.loop_source(a0) is not None
+            swapped = stored(a1) and util.loop_source(a0) is not None
             whole = gen.count('urdf::JointData') == 2 and ((lhs_entry and rhs_joint) or swapped)
     eqb = [b for p2, b in prog.bodies.items() if p2 == '<urdf::JointData as std::cmp::PartialEq>::eq']
     allf = False
@@ -438,6 +461,9 @@ def run(ctx):
             v = util.const_val(tt[2])
             if v is None and one and one[0] is True:
                 rets['single'] = 'index0' if mir.contains(tt[2], lambda x: x[0] == 'call' and cname(x[1]) == 'Index::index' and util.const_val(x[3]) == 0) else '?'
+            elif v is None and _first_and_only(ax, d[1]):
+                # `match (it.next(), it.next()) { (Some(sign), None) => Ok(sign), .. }`: the first element, there being no second
+                rets['single'] = 'index0' if mir.contains(tt[2], lambda x: x[0] == 'call' and cname(x[1]).split('::')[-1] == 'next') else '?'
             elif v == 0:
                 rets['other'] = 0
     ctx.check(filt and mp and rets == {'single': 'index0', 'other': 0}, 'R20.7', 'axis-sign', ax.where(0), ax.path,
@@ -515,6 +541,7 @@ def _component_table(ctx, prog, pp, opl):
                       'from the single non-zero component; a helper choosing between two components returns the non-zero one')
     n = 0
     helpers = {}
+    readers = {}
     for i, j, st in pp.stmts():
         lhs = st['lhs']
         if lhs['local'] != opl or not lhs['proj']:
@@ -531,12 +558,42 @@ def _component_table(ctx, prog, pp, opl):
                   'on joint %d the parameter %s may be read from %s of the joint origin, found %s' %
                   (arm[-1], fld, ' or '.join('{' + ','.join(sorted(a)) + '}' if a else 'a constant' for a in allowed), sorted(comps) or 'a constant'),
                   found=show(v, maxdepth=6), detail=','.join(sorted(comps)) or 'const')
+        if comps == {'whole'}:
+            for c in mir.subterms(v, lambda x: x[0] == 'call' and x[1] in prog.bodies and prog.bodies[x[1]].kind != 'Closure'):
+                hb = prog.bodies[c[1]]
+                if hb.arg_count == 1 and 'Vector3' in hb.local_ty(1) and 'Result<f64' in hb.local_ty(0).replace('std::result::', ''):
+                    readers[hb.path] = hb
         if len(comps) == 2:
             for c in mir.subterms(v, lambda x: x[0] == 'call' and x[1] in prog.bodies and prog.bodies[x[1]].kind != 'Closure'):
                 hb = prog.bodies[c[1]]
                 if [hb.local_ty(k) for k in range(1, hb.arg_count + 1)][:2] == ['f64', 'f64'] and 'Result<f64' in hb.local_ty(0).replace('std::result::', ''):
                     helpers[hb.path] = hb
     ctx.floor('R20.9 component-table writes', n, 8)
+    ctx.floor('R20.9 single-component reader', len(readers), 1)
+    for hb in readers.values():
+        ctx.fn(hb)
+        vt = hb.local_ty(1).lstrip('&').strip()
+        for vec, want in (((0.0, 0.0, 0.0), 0.0), ((1.5, 0.0, 0.0), 1.5), ((0.0, -2.0, 0.0), -2.0), ((0.0, 0.0, 0.25), 0.25),
+                          ((1.0, 2.0, 0.0), None), ((0.0, 2.0, 3.0), None), ((1.0, 0.0, 3.0), None), ((1.0, 2.0, 3.0), None)):
+            key = 'single%s' % (vec,)
+            me = {'#adt': vt, 'x': Iv(vec[0]), 'y': Iv(vec[1]), 'z': Iv(vec[2])}
+            I = Interp(prog, {}, fuel=20000, max_paths=8)
+            try:
+                outs = I.run(hb.path, [('refval', me, ())])
+            except (absint.Unsupported, absint.Undecided) as e:
+                if want is None:
+                    ctx.ok('R20.9', key, hb.where(0), 'error path not interpreted (%s)' % type(e).__name__)
+                    continue
+                raise MachineryError('the single-component reader could not be interpreted: %s' % e)
+            got = [o.ret for o in outs]
+            if want is None:
+                ok = all(isinstance(r, tuple) and r[0] == 'enum' and r[1] == 1 for r in got)
+            else:
+                ok = len(got) == 1 and isinstance(got[0], tuple) and got[0][0] == 'enum' and got[0][1] == 0 and isinstance(got[0][2][0], Iv) and \
+                    got[0][2][0].is_point() and got[0][2][0].lo == want
+            ctx.check(ok, 'R20.9', key, hb.where(0), hb.path,
+                      'the reader of a joint origin with one non-zero component must return that component (0 when all are 0, an error when several are set)',
+                      found=repr(got)[:200], expected='Err' if want is None else 'Ok(%g)' % want, detail='by interpretation')
     for hb in helpers.values():
         ctx.fn(hb)
         extra = [('refval', 'c2', ())] * (hb.arg_count - 2)
@@ -559,6 +616,40 @@ def _component_table(ctx, prog, pp, opl):
             ctx.check(ok, 'R20.9', key, hb.where(0), hb.path,
                       'the helper choosing between two components must return the non-zero one (0 when both are 0, an error when both are set)',
                       found=repr(got)[:200], expected='Err' if want is None else 'Ok(%g)' % want, detail='by interpretation')
+
+
+def _first_and_only(b, blk):
+    """block blk lies on the Some edge of a first `next()` and on the None edge of a second `next()` of the same iterator
+    (the first call dominating the second): the iterator yields exactly one element"""
+    hits = []
+    for g, k, sw in b.guard_terms(blk):
+        op = b.blocks[sw]['term'].get('discr')
+        if not op or op.get('k') not in ('copy', 'move') or k not in (0, 1):
+            continue
+        # the switch reads the discriminant of a local (possibly a field of the pair) defined by a call of next()
+        loc = op['place']['local']
+        for d in b.defs().get(loc, []):
+            if d[0] == 'st' and d[3]['rv']['k'] == 'discr':
+                pl = d[3]['rv']['place']
+                src = pl['local']
+                cands = [(src, None)]
+                # a field of a tuple aggregate built from the two results
+                for d2 in b.defs().get(src, []):
+                    if d2[0] == 'st' and d2[3]['rv']['k'] == 'agg' and pl['proj'] and pl['proj'][0]['k'] == 'field':
+                        o = d2[3]['rv']['ops'][pl['proj'][0]['i']]
+                        if o['k'] in ('copy', 'move') and not o['place']['proj']:
+                            cands.append((o['place']['local'], None))
+                for c, _ in cands:
+                    for d3 in b.defs().get(c, []):
+                        if d3[0] == 'call' and cname(callee_name(d3[3])).split('::')[-1] == 'next':
+                            hits.append((d3[1], k, util._ref_root(b, d3[3]['args'][0])))
+    some = [h for h in hits if h[1] == 1]
+    none = [h for h in hits if h[1] == 0]
+    for a in some:
+        for n in none:
+            if a[0] != n[0] and a[2] is not None and a[2] == n[2] and b.dominates(a[0], n[0]):
+                return True
+    return False
 
 
 def _joint_number(g, k):
